@@ -397,7 +397,7 @@ func runHTTP(sc httpScenario) (out httpOut) {
 		select {
 		case <-arrivedCh:
 			cancelReq()
-		case <-time.After(30 * time.Second):
+		case <-harness.After(30 * time.Second):
 			out.inconclusive = "no attempt reached the server within 30s"
 			return out
 		}
@@ -405,7 +405,7 @@ func runHTTP(sc httpScenario) (out httpOut) {
 	var res result
 	select {
 	case res = <-resCh:
-	case <-time.After(60 * time.Second):
+	case <-harness.After(60 * time.Second):
 		return fail("call-hung", "the call had not returned after 60s (cancel_call=%v)", sc.CancelCall)
 	}
 	endScenario()
